@@ -4,12 +4,12 @@ CONSTANTS
   MaxU = 2147483647
   MaxS = 2147483647
   Protocol = TRUE
-  CfgIds = {1, 2, 3, 4, 5, 6}
-  MaxDepth = 40
-  Sample = 1
-  PriceMoves = {7, 8, 9, 10, 11, 12, 13}
+  CfgIds = {1, 2, 3, 4}
+  MaxDepth = 5
+  Sample = 397
+  PriceMoves = {8, 13}
   GuardShares = TRUE
-  Rich = TRUE
+  Rich = FALSE
 VIEW View
 INVARIANTS MonitorsHold Emitted
 CHECK_DEADLOCK FALSE
